@@ -10,6 +10,9 @@ LogicSim executes sequentially, so there is no race detection here; its two scra
 """
 import numpy as np
 
+# array attributes that hand out the underlying memory (accesses through them bypass the recording proxy)
+ESCAPING = {'base', 'view', 'reshape', 'ravel', 'flat', 'T', 'data', 'ctypes', 'transpose', 'swapaxes', 'squeeze'}
+
 from . import wave as W
 
 
@@ -34,6 +37,11 @@ class _OpsProxy:
 
     def __setitem__(self, key, v):
         self.a[key] = v
+
+    def __getattr__(self, name):
+        if name.startswith('__') and name.endswith('__'):
+            raise AttributeError(name)
+        return getattr(self.a, name)
 
     def __getitem__(self, key):
         sub = self.a[key]
@@ -96,6 +104,17 @@ class _CProxy:
     def __setitem__(self, key, v):
         self.mon.on_set(key)
         self.a[key] = v
+
+    def __getattr__(self, name):
+        # anything else of the array interface (base, view, reshape, ctypes, ...): handed through; memory reached that way is not observed,
+        # so the monitor stops judging instead of working with stale ownership
+        if name.startswith('__') and name.endswith('__'):
+            raise AttributeError(name)
+        val = getattr(self.a, name)
+        if name in ESCAPING:
+            self.mon.blind = True
+            self.mon.stats['unattributed'] += 1
+        return val
 
 
 class LogicSanitizer:
